@@ -2,7 +2,7 @@
 From Coq Require Import String.
 From Coq Require Import List Strings.Byte NArith ZArith Bool Arith.
 Require Import Bytes Show Tables Codec CodecProofs Chunk ChunkProofs Range RangeProofs DecProofs
-               Ser SerSkel SerProofs BodyStream BodyStreamProofs.
+               Ser SerSkel SerProofs BodyStream BodyStreamProofs HeaderScan ReqHead RespHead RespHeadProofs.
 Import ListNotations.
 
 (* the request header block the client writes (regenerated skeleton of RequestHeader.AppendBytes):
@@ -46,3 +46,29 @@ Proof.
   intros n p w prog b eof s' H1 H2 R. destruct (stream_correct n p w prog b eof s' H1 H2 R) as (A & B & C & _). auto.
 Qed.
 Print Assumptions C11_streamed_response_body.
+
+(* The response head (resp.ReadHeader, compared with `resp_head` on every generated head by unit c11.resphead).
+   The status line a server writes is read back: protocol version, status code - for EVERY code below 2^63 and
+   EVERY reason phrase without LF - and parsing stops behind the line. *)
+Theorem C11_status_line_reads_back : forall (code : Z) (text rest : bs),
+  (0 <= code < two63)%Z -> ~ In LF text ->
+  parse_status_line (bytestr_StrHTTP11 ++ [SPC] ++ show_Z code ++ [SPC] ++ text ++ CRLF ++ rest) = SLOk true code rest.
+Proof. exact status_line_reads_back. Qed.
+Print Assumptions C11_status_line_reads_back.
+
+(* Framing of a response: whenever some field is a Transfer-Encoding other than identity the body is chunked,
+   whatever Content-Length fields come before or after it, in whatever letter case. *)
+Theorem C11_response_transfer_encoding_wins : forall fs st,
+  existsb is_te_chunked fs = true -> fst (fold_left rframe_step fs st) = (-1)%Z.
+Proof. exact resp_transfer_encoding_wins. Qed.
+Print Assumptions C11_response_transfer_encoding_wins.
+
+Theorem C11_response_content_length_reads : forall n : Z, (0 <= n < two63)%Z ->
+  rframe_of [(bytestr_StrContentLength, show_Z n)] = (n, false).
+Proof. exact resp_content_length_reads. Qed.
+
+Example C11_resphead_nonvacuous :
+  resp_head [B "HTTP/1.1 404 Not Found" ++ CRLF ++ B "content-length: 5" ++ CRLF ++ B "Transfer-Encoding: chunked" ++ CRLF ++ CRLF ++ B "x"] =
+  B "OK 1 404 -1 73" /\
+  resp_head [B "HTTP/1.1 200 OK" ++ CRLF ++ B "Content-Length: 12x" ++ CRLF ++ CRLF] = B "BAD length".
+Proof. vm_compute. split; reflexivity. Qed.
